@@ -123,6 +123,8 @@ pub fn handle_n(report: &mut Report, ctx: &CaseCtx, n: usize) {
 
 pub fn run(report: &mut Report, seed: u64, cases: u64, schedules: usize) {
     let mut scfg = StreamCfg::new(cases);
+    // read-ahead wrappers / trace recording materialise whole context streams: keep cases smaller
+    scfg.cost_budget = 30_000;
     scfg.cfg_for_block = Box::new(|b| {
         let mut c = GenCfg::rotated(b);
         c.w_fold += 15;
